@@ -9,7 +9,7 @@
    malformed beyond these rules (illegal bytes, whitespace, version syntax, CRLF discipline) is decided against the
    code by the correspondence and the by-construction oracle over mutation classes. *)
 From Via Require Import M_Char M_Parse M_Receive P_Parse P_C02.
-From Via Require Import M_Imp Gen_Parse P_Imp.
+From Via Require Import M_Imp M_Loop M_Hdr Gen_Parse P_Imp P_Loop P_Hdr P_Frag.
 Local Open Scope N_scope.
 
 Theorem C02_head_error_is_invalid : forall cfg v buf q1 rest,
@@ -167,3 +167,56 @@ Theorem C02_field_line_model_is_the_source : forall L f c,
 Proof. exact fl_parse_char_is_the_source. Qed.
 Print Assumptions C02_request_line_model_is_the_source.
 Print Assumptions C02_field_line_model_is_the_source.
+
+(* the chunk-size line, whose limits (line length, whitespace, 16 hex digits, the configured chunk size) the chunked
+   verdicts rest on; the loops around parse_char, which stop at the first character that does not fit and set the
+   fail flag; and clear(), so that the limits of a later request are counted from zero *)
+Theorem C02_chunk_line_model_is_the_source : forall L k c,
+  run_body (ck_lim L) c (ck_src L) (ck_store k) = (ck_store (fst (ck_parse_char L k c)), snd (ck_parse_char L k c)).
+Proof. exact ck_parse_char_is_the_source. Qed.
+Theorem C02_request_line_loop_is_the_source : forall L r buf fuel, (length buf < fuel)%nat ->
+  lrun (rl_lim L) (rl_src L) fuel rl_parse_src (rl_store r) buf =
+  Some (let '(r', rest, p) := rl_parse L r buf in (is_done p, rl_store r', rest)).
+Proof. exact rl_parse_is_the_source. Qed.
+Theorem C02_field_line_loop_is_the_source : forall L f buf fuel, (length buf < fuel)%nat ->
+  lrun (fl_lim L) (fl_src L) fuel fl_parse_src (fl_store f) buf =
+  Some (let '(f', rest, p) := fl_parse L f buf in (is_done p, fl_store f', rest)).
+Proof. exact fl_parse_is_the_source. Qed.
+Theorem C02_chunk_line_loop_is_the_source : forall L k buf fuel, (length buf < fuel)%nat ->
+  lrun (ck_lim L) (ck_src L) fuel ck_parse_src (ck_store k) buf =
+  Some (let '(k', rest, p) := ck_parse L k buf in (is_done p, ck_store k', rest)).
+Proof. exact ck_parse_is_the_source. Qed.
+Theorem C02_field_line_reset_is_the_source : forall lim c f,
+  exec lim c fl_clear_src (fl_store f) = (ONormal, fl_store fl_init).
+Proof. exact fl_clear_is_the_source. Qed.
+Theorem C02_chunk_line_reset_is_the_source : forall lim c k,
+  exec lim c ck_clear_src (ck_store k) = (ONormal, ck_store (ck_init (ck_max k))).
+Proof. exact ck_clear_is_the_source. Qed.
+(* the translated loop refuses: a method of nine letters under a limit of eight stops after the ninth (ERROR_METHOD_LENGTH is state 15), fail flag set *)
+Example C02_request_line_loop_example :
+  let L := mk_limits 8190 8 100 65534 1024 8 65534 65534 false in
+  lrun (rl_lim L) (rl_src L) 40 rl_parse_src (rl_store rl_init) [65;66;67;68;69;70;71;72;73;74;32] =
+  Some (false, mk_store 15 [[65;66;67;68;69;70;71;72;73]; []] [0; 0; 0; 0; 1], [74;32]).
+Proof. vm_compute. reflexivity. Qed.
+Print Assumptions C02_chunk_line_model_is_the_source.
+Print Assumptions C02_request_line_loop_is_the_source.
+Print Assumptions C02_field_line_loop_is_the_source.
+Print Assumptions C02_chunk_line_loop_is_the_source.
+Print Assumptions C02_field_line_reset_is_the_source.
+Print Assumptions C02_chunk_line_reset_is_the_source.
+
+(* the header block's own limits - number of lines and accumulated length, checked after every stored line - are those
+   of the translated message_headers::parse: the model's hd_parse is that function (see Properties_C01.v) *)
+Theorem C02_header_block_is_the_source : forall L h buf fuel, hd_ok h -> (length buf + 2 <= fuel)%nat ->
+  hrun (fl_lim L) (hd_lim L) (fl_code_of L) fuel hd_parse_src (hd_store h) buf =
+  Some (let '(h', rest, p) := hd_parse L h buf in (is_done p, hd_store h', rest)).
+Proof. exact hd_parse_is_the_source. Qed.
+(* three lines under a limit of two: refused when the third is stored, fail flag set *)
+Example C02_header_block_source_example :
+  let L := mk_limits 8190 8 2 65534 1024 8 65534 65534 false in
+  match hrun (fl_lim L) (hd_lim L) (fl_code_of L) 40 hd_parse_src (hd_store hd_init) [65;58;49;10;66;58;50;10;67;58;51;10;10] with
+  | Some (false, st, rest) => hs_nums st = [0; 1; 0; 6] /\ rest = [10]
+  | _ => False
+  end.
+Proof. vm_compute. split; reflexivity. Qed.
+Print Assumptions C02_header_block_is_the_source.
